@@ -8,6 +8,8 @@ import (
 	"go/types"
 	"sort"
 	"strings"
+
+	"golang.org/x/tools/go/ssa"
 )
 
 // ---- the oracle: Thrift Binary Protocol (embedded, independent of the code under analysis)
@@ -139,6 +141,9 @@ func ruleT1(c *Ctx) []Ob {
 	return s.obs
 }
 
+// boolean kind tables whose role can be played by a predicate function
+var isBoolTable = map[string]bool{"containerTypes": true}
+
 func ruleT2(c *Ctx) []Ob {
 	s := newSink(c, "T2.tables")
 	k, err := c.kinds()
@@ -148,6 +153,66 @@ func ruleT2(c *Ctx) []Ob {
 	}
 	exact := func(pkg, table string, want map[int64]int64, what string) {
 		tab, pos, ok := c.tableOf(pkg, table)
+		if !ok && c.ByPath[pkg] != nil && c.ByPath[pkg].Types.Scope().Lookup(table) == nil && isBoolTable[table] {
+			// the table is gone: a predicate function over the kind may have taken its place (func(kind) bool, evaluated for every
+			// code); its values are held against the protocol table like the table's
+			var cands []*ssa.Function
+			var ctabs []map[int64]constant.Value
+			if sp := c.SSA[pkg]; sp != nil {
+				var names []string
+				for n := range sp.Members {
+					names = append(names, n)
+				}
+				sort.Strings(names)
+				for _, n := range names {
+					fn, isFn := sp.Members[n].(*ssa.Function)
+					if !isFn || fn.Blocks == nil || len(fn.Params) != 1 || fn.Signature.Results().Len() != 1 || !isBoolType(fn.Signature.Results().At(0).Type()) {
+						continue
+					}
+					if b, isB := fn.Params[0].Type().Underlying().(*types.Basic); !isB || b.Info()&types.IsInteger == 0 || c.Sizes.Sizeof(b) != 1 {
+						continue
+					}
+					if knownFuncSet()[pkg+"\t"+n] {
+						continue
+					}
+					vals := map[int64]constant.Value{}
+					det := true
+					for v := int64(0); v < 256 && det; v++ {
+						switch predicateValue(fn, map[string]int64{fn.Params[0].Name(): v}) {
+						case triT:
+							vals[v] = constant.MakeBool(true)
+						case triF:
+						default:
+							det = false
+						}
+					}
+					if det {
+						cands = append(cands, fn)
+						ctabs = append(ctabs, vals)
+					}
+				}
+			}
+			// the one whose values are closest to the stated ones stands for the table
+			best, bestDiff := -1, 1<<30
+			for i, ct := range ctabs {
+				d := 0
+				for v := int64(0); v < 256; v++ {
+					_, has := ct[v]
+					if has != (want[v] != 0) {
+						d++
+					}
+				}
+				if d < bestDiff {
+					best, bestDiff = i, d
+				}
+			}
+			if best < 0 || bestDiff > 2 {
+				s.ok(table, "-", "no such table in this tree and no predicate function in its place; the kinds are decided where they are used (F.skip-flags evaluates the flag for every kind)")
+				return
+			}
+			tab, pos, ok = ctabs[best], cands[best].Pos(), true
+			table = cands[best].Name()
+		}
 		if !ok {
 			s.undec(table, c.Pos(pos), "table is not a composite literal with constant keys and values")
 			return
